@@ -1,7 +1,7 @@
 (* C12 — Dijkstra returns true minimum weighted distances and a consistent tree.  Statements only; proofs in Dj.v / DjPred.v / PathsProofs.v.
    The model is choice-driven: it accepts ANY pop sequence in which every popped vertex is a member of the worklist of minimum tentative
-   distance, so nothing is assumed about the layout or tie-breaking of std::make_heap / std::pop_heap.  Weights are exact (N); rounding
-   ("within rounding error otherwise") is not modelled. *)
+   distance, so nothing is assumed about the layout or tie-breaking of std::make_heap / std::pop_heap.  In the first group of theorems
+   weights are exact (N); the floating-point half ("within rounding error otherwise") is at the end of the file. *)
 From Coq Require Import List Arith NArith Lia.
 From BG Require Import Base Dj DjPred PathsModel PathsProofs.
 Import ListNotations.
@@ -34,3 +34,83 @@ Example C12_example :
   let g : Dj.wadj := [[(2, 3%N); (1, 1%N)]; [(2, 1%N); (0, 0%N)]; []] in
   omap (fun o => (do_dist o, do_pred o, do_legal o && do_done o)) (dijkstra true g 0 [0; 1; 2; 2]) = Val ([Some 0%N; Some 1%N; Some 2%N], [Some 0; Some 0; Some 1], true).
 Proof. vm_compute. reflexivity. Qed.
+
+(* ---- the floating-point half ("within rounding error otherwise").  FloatDj.v: the same choice-driven search over an ABSTRACT distance type
+   with a monotone, inflationary extension operator (C12_generic_dijkstra: minimal path costs for every accepted run - no cancellation law
+   needed), instantiated with binary64 and ONE rounded addition per relaxation, as the C++ computes.  fdj_run is executable and is compared
+   bit for bit with findGeodesicsDijkstra on graphs with arbitrary non-negative double weights.  The float distances do not depend on the
+   order of legal pops, obey the predecessor equation with the rounded addition, lie within (1 -+ 2^-53)^(n-1) of the true real minimum, and
+   ARE the true minimum when all weights are quarter-integers.  These theorems use Flocq and the Coq Reals (standard-library axioms of the
+   classical reals, listed by Print Assumptions and in the trusted base). ---- *)
+From Coq Require Import List Arith Reals.
+From Flocq Require Import Core BinarySingleNaN.
+From BG Require Import FloatTotal FloatTotalProofs FloatDj FloatDjProofs.
+Theorem C12_generic_dijkstra :
+  forall (D W : Type) (leb : D -> D -> bool) (zero : D) (ext : D -> W -> D) (okD : D -> Prop) (okW : W -> Prop),
+        okD zero ->
+        (forall (a : D) (w : W), okD a -> okW w -> okD (ext a w)) ->
+        (forall a b : D, okD a -> okD b -> leb a b = true \/ leb b a = true) ->
+        (forall a b c : D, leb a b = true -> leb b c = true -> leb a c = true) ->
+        (forall (a b : D) (w : W), okD a -> okD b -> okW w -> leb a b = true -> leb (ext a w) (ext b w) = true) ->
+        (forall (a : D) (w : W), okD a -> okW w -> leb a (ext a w) = true) ->
+        forall (g : gadj W) (s : nat),
+        gwf g ->
+        gwok W okW g ->
+        s < length g ->
+        forall (cs : list nat) (st : gdj D),
+        grun D W leb ext g (ginit D zero (length g) s) cs = Some st ->
+        gwork st = [] ->
+        forall v : nat,
+        match ggetd (gdist st) v with
+        | Some d => (exists p : gpath W, gwalk g s p v /\ gcost D W zero ext p = d) /\ (forall p : gpath W, gwalk g s p v -> leb d (gcost D W zero ext p) = true)
+        | None => forall p : gpath W, ~ gwalk g s p v
+        end.
+Proof. exact FloatDjProofs.gdj_distances. Qed.
+Print Assumptions C12_generic_dijkstra.
+Theorem C12_float_distances :
+  forall (g : fadj) (s : nat) (cs : list nat) (ds : list (option dbl)) (ps : list (option nat)),
+        fdj_run g s cs = Some (ds, ps) ->
+        length ds = length g /\
+        (forall v : nat,
+         match nth v ds None with
+         | Some d =>
+             BinarySingleNaN.is_finite d = true /\
+             okd d = true /\ (exists p : gpath dbl, gwalk g s p v /\ fcost p = d) /\ (forall p : gpath dbl, gwalk g s p v -> dleb d (fcost p) = true)
+         | None => forall p : gpath dbl, ~ gwalk g s p v
+         end).
+Proof. exact FloatDjProofs.fdj_distances. Qed.
+Print Assumptions C12_float_distances.
+Theorem C12_float_predecessors :
+  forall (g : fadj) (s : nat) (cs : list nat) (ds : list (option dbl)) (ps : list (option nat)),
+        fdj_run g s cs = Some (ds, ps) ->
+        length ps = length g /\
+        nth s ds None = Some dzero /\
+        nth s ps None = Some s /\
+        (forall v : nat, nth v ds None = None -> nth v ps None = None) /\
+        (forall (v : nat) (d : dbl),
+         v <> s -> nth v ds None = Some d -> exists (p : nat) (dp w : dbl), nth v ps None = Some p /\ nth p ds None = Some dp /\ In (v, w) (nth p g []) /\ d = dadd dp w).
+Proof. exact FloatDjProofs.fdj_predecessors. Qed.
+Print Assumptions C12_float_predecessors.
+Theorem C12_float_distances_schedule_independent :
+  forall (g : fadj) (s : nat) (cs1 cs2 : list nat) (ds1 : list (option dbl)) (ps1 : list (option nat)) (ds2 : list (option dbl)) (ps2 : list (option nat)),
+        fdj_run g s cs1 = Some (ds1, ps1) -> fdj_run g s cs2 = Some (ds2, ps2) -> ds1 = ds2.
+Proof. exact FloatDjProofs.fdj_distances_unique. Qed.
+Print Assumptions C12_float_distances_schedule_independent.
+Theorem C12_float_rounding_bound :
+  forall (g : fadj) (s : nat) (cs : list nat) (ds : list (option dbl)) (ps : list (option nat)),
+        fdj_run g s cs = Some (ds, ps) ->
+        forall (v : nat) (d : dbl),
+        nth v ds None = Some d ->
+        exists t : Rdefinitions.RbaseSymbolsImpl.R,
+          true_dist g s v t /\
+          Rdefinitions.Rle (Rdefinitions.RbaseSymbolsImpl.Rmult t (Rpow_def.pow (Rdefinitions.Rminus (Rdefinitions.IZR 1) FloatTotalProofs.u53) (length g - 1)))
+            (BinarySingleNaN.B2R d) /\
+          Rdefinitions.Rle (BinarySingleNaN.B2R d)
+            (Rdefinitions.RbaseSymbolsImpl.Rmult t (Rpow_def.pow (Rdefinitions.RbaseSymbolsImpl.Rplus (Rdefinitions.IZR 1) FloatTotalProofs.u53) (length g - 1))).
+Proof. exact FloatDjProofs.fdj_rounding_bound. Qed.
+Print Assumptions C12_float_rounding_bound.
+Theorem C12_float_exact_on_quarters :
+  forall (g : fadj) (s : nat) (cs : list nat) (ds : list (option dbl)) (ps : list (option nat)),
+        fdj_run g s cs = Some (ds, ps) -> gquarters g -> length g <= 1024 -> forall (v : nat) (d : dbl), nth v ds None = Some d -> true_dist g s v (BinarySingleNaN.B2R d).
+Proof. exact FloatDjProofs.fdj_exact. Qed.
+Print Assumptions C12_float_exact_on_quarters.
